@@ -1,5 +1,5 @@
 from kirin import ir
-from kirin.passes import Pass
+from kirin.passes import Pass, TypeInfer
 from kirin.rewrite import (
     Chain,
     CommonSubexpressionElimination,
@@ -20,6 +20,10 @@ class ScheduleToPath(Pass):
     """Pass to convert schedule dialect to path dialect."""
 
     def unsafe_run(self, mt: ir.Method):
+        # device calls are recognised by the static type of their callee; a device
+        # function that reaches the call through an alias (`f = dev_fn`) or a
+        # loop-carried variable only gets that type from type inference.
+        TypeInfer(self.dialects, no_raise=self.no_raise).unsafe_run(mt)
         result = Fixpoint(Walk(Canonicalize())).rewrite(mt.code)
         result = (
             Walk(Chain(RewriteAutoInvoke(), RewriteDeviceCall()))
